@@ -121,7 +121,12 @@ func init() {
 		Level:       "exploration",
 		Rule:        "seeded batch pairs x chunk modes x provenance {built, re-opened, merged once, merged twice (alone or with a leaf)}; for every field (and an unknown one): Cardinality, Contains of every term, and AutomatonIterator for automata {nil=all, never, exact, prefix, vellum regexp, vellum levenshtein d=1,2} x key ranges with each bound in {nil, below min, existing term, between terms, above max}, start < end; acceptance decided by stepping the automaton over the term bytes in the harness; every entry's Count compared with the model's postings size; distinct = (batch fingerprints, mode); non-trivial = >= 2 documents and a multi-document term",
 		Assumptions: append([]string{"key-range bounds are nil or non-empty (an empty non-nil bound is outside the domain: bleve passes nil for 'absent')"}, commonAssumptions...),
-		Runs:        simple("C08", "plain"),
+		Runs: func(tier string) []runSpec {
+			return []runSpec{
+				{Workload: "C08", Flavour: "plain", Shards: 16, TimeoutS: tq(tier, 600, 3600)},
+				{Workload: "C08c", Flavour: "race", Shards: 8, TimeoutS: tq(tier, 600, 3600)},
+			}
+		},
 		Min: mins(map[string]int64{"dict_entries_checked": 100000, "dict_general_after_single": 2000, "dict_provenance_merged_twice": 100},
 			map[string]int64{"dict_entries_checked": 1500000, "dict_general_after_single": 30000, "dict_provenance_merged_twice": 1500}),
 	}
